@@ -1,4 +1,5 @@
 import DFV.Lemmas.C08Ex
+import DFV.Lemmas.C08Ex2
 /-!
 # C08 — validity masks follow the data through every operation that keeps or maps cells
 
@@ -12,6 +13,12 @@ reading, `evalS` the same evaluation over an abstract store of buffers (ownershi
 acceptance check on shapes, `gradProg` … `ufuncProg` the compound operations as `field.py`
 composes them, `Sess` / `Stmt` sessions of statements with in-place changes (every statement reads
 its operands' masks from the store), `Prog.subst` inlining.
+
+Second half: `SessM` = sessions with MESH OBJECTS (what a result shares with its operand and what
+it owns); the setter as one total function of every argument kind, dictionaries over subregions
+included; the OBJECT-LEVEL LINK — the validity array of the results of the field-level operations
+of the C03, C05, C07, C12 (shared rotation), C06, C11 and C15 models is what the theorems above
+say, stated on those models' own definitions.
 -/
 namespace DFV.C08
 open DFV
@@ -728,5 +735,506 @@ theorem stepwise_is_inlined (env vals : Nat → Mask) (σ : Nat → Prog) (hσ :
 example : ∀ k, eval exEnv ((fun k => Prog.un (.leaf k)) k) = .ok ((fun k => own (exEnv k)) k) := fun _ => rfl
 example : (Prog.binF (.leaf 0) (.map (.rot 0 1 2) (.leaf 1))).subst (fun k => .un (.leaf k))
     = .binF (.un (.leaf 0)) (.map (.rot 0 1 2) (.un (.leaf 1))) := rfl
+
+/-! ## Sessions with mesh objects: what a result shares with its operand, and what it owns
+
+`field.py` hands `self.mesh` to the constructor in every operation that keeps the cells: the result
+holds a reference to the SAME `Mesh` object as its operand, but a validity buffer of its own.
+`SessM` adds the mesh objects to the sessions: object ↦ mesh object ↦ cells per axis. -/
+
+/-- **The masks are those of the plain session.**  Running a history with the mesh bookkeeping is
+running it without (so every session theorem above applies to `st'.base`), and the bookkeeping never
+refuses a statement the plain session accepts. -/
+theorem session_mesh_conservative (leaves : List Mask) (h : List Stmt) :
+    (∀ st', (SessM.init leaves).run h = .ok st' → (Sess.init leaves).run h = .ok st'.base) ∧
+    ∀ (st : SessM) (s : Stmt) (b : Sess), st.base.step s = .ok b → ∃ st', st.step s = .ok st' ∧ st'.base = b :=
+  ⟨fun st' hr => SessM.run_base h _ st' hr, fun st s b hb => SessM.step_total st s b hb⟩
+
+/-- **`x.valid.shape == x.mesh.n`, all histories.**  After any history of builds, assignments,
+element writes and in-place quarter turns — on fields that share their `Mesh` object with operands
+and results alike — every variable's validity has exactly the cells of the mesh object it holds
+(repo fix d0059dba: the turned field gets a NEW mesh object). -/
+theorem session_mesh_consistent (leaves : List Mask) (h : List Stmt) (st : SessM)
+    (hr : (SessM.init leaves).run h = .ok st) (i : Nat) (hi : i < st.base.vars.length) :
+    st.meshObj i < st.meshN.length ∧ (st.base.mask i).shape = st.meshNOf i := by
+  have hI := SessM.run_inv h _ st (SessM.init_inv leaves) hr
+  have ho := hI.base.vars_lt i hi
+  exact ⟨hI.lt _ ho, (hI.shape _ ho).symm⟩
+
+/-- **Mesh objects are never mutated.**  Whatever a continuation does (in-place quarter turns of
+fields that share the mesh included), a mesh object that exists keeps its cells per axis: the table
+of mesh objects only grows. -/
+theorem session_mesh_immutable (st st' : SessM) (h : List Stmt) (hr : st.run h = .ok st') (o : Nat)
+    (ho : o < st.meshN.length) : st'.meshN.getD o [] = st.meshN.getD o [] := by
+  obtain ⟨ext, he⟩ := SessM.run_meshN h st st' hr
+  rw [he]; exact getD_append_lt _ _ _ _ ho
+
+/-- **What a built field shares.**  `x_new = <expression>` at any point of any history: every
+existing variable keeps its mesh object; the new field holds the mesh object of the variable
+`meshOf` names (unary / derived / binary operations, the left operand's) — while its validity
+buffer is new (`session_build`) — or, for cell-mapping operations, file round trips, directional
+means and the FFT family, a mesh object that did not exist before. -/
+theorem session_build_shares_mesh (leaves : List Mask) (h : List Stmt) (st st' : SessM)
+    (hr : (SessM.init leaves).run h = .ok st) (p : Prog) (hs : st.step (.build p) = .ok st') :
+    (∀ j, j < st.base.vars.length → st'.meshObj j = st.meshObj j) ∧
+    (∀ k, meshOf p = some k → st'.meshObj st.base.vars.length = st.meshObj k) ∧
+    (meshOf p = none → st'.meshObj st.base.vars.length = st.meshN.length) :=
+  SessM.build_mesh st st' (SessM.run_inv h _ st (SessM.init_inv leaves) hr) p hs
+
+/-- **An in-place quarter turn un-shares the mesh.**  `x_i.rotate90(..., inplace=True)` at any point of
+any history: the names of the turned object get a mesh object that did not exist before; every
+other variable — also one that shared the mesh object with `x_i` — keeps its mesh object, whose
+cells are unchanged, and its mask. -/
+theorem session_rotate_unshares_mesh (leaves : List Mask) (h : List Stmt) (st st' : SessM)
+    (hr : (SessM.init leaves).run h = .ok st) (i a b : Nat) (k : Int) (hs : st.step (.rotI i a b k) = .ok st') :
+    (∀ j, st.base.objOf j = st.base.objOf i → st'.meshObj j = st.meshN.length) ∧
+    (∀ j, j < st.base.vars.length → st.base.objOf j ≠ st.base.objOf i →
+      st'.meshObj j = st.meshObj j ∧ st'.meshNOf j = st.meshNOf j ∧ st'.base.mask j = st.base.mask j) := by
+  have hI := SessM.run_inv h _ st (SessM.init_inv leaves) hr
+  obtain ⟨h1, h2⟩ := SessM.rotI_mesh st st' hI i a b k hs
+  refine ⟨h2, fun j hj hne => ⟨h1 j hj hne, ?_, ?_⟩⟩
+  · unfold SessM.meshNOf
+    rw [h1 j hj hne]
+    exact session_mesh_immutable st st' [.rotI i a b k] (by simp only [SessM.run, hs]) _ (hI.lt _ (hI.base.vars_lt j hj))
+  · exact (Sess.rotI_effect st.base st'.base hI.base i a b k (SessM.step_base st st' _ hs)).2.1 j hj hne
+
+/-- assignments `x.valid = spec` and element writes `x.valid[idx] = v` leave every mesh reference and
+every mesh object alone -/
+theorem session_assign_poke_keep_mesh (st st' : SessM) (s : Stmt)
+    (hs : (∃ i sp, s = .assign i sp) ∨ ∃ i pos v, s = .poke i pos v) (h : st.step s = .ok st') :
+    st'.meshes = st.meshes ∧ st'.meshN = st.meshN ∧ ∀ j, st'.meshObj j = st.meshObj j :=
+  SessM.assign_poke_mesh st st' s hs h
+
+/-- `g = -f; g.rotate90('x', 'y', inplace=True)`: afterwards `f` and `g` hold different mesh objects, `f` still
+2 × 3 cells, `g` 3 × 2 -/
+example : (match (SessM.init [exEnv 0]).run [.build (.un (.leaf 0)), .rotI 1 0 1 1] with
+    | .ok st => some (st.meshObj 0, st.meshObj 1, st.meshNOf 0, st.meshNOf 1)
+    | .error _ => none) = some (0, 1, [2, 3], [3, 2]) := by decide
+example : (match (SessM.init [exEnv 0]).run [.build (.un (.leaf 0)), .rotI 1 0 1 1] with
+    | .ok st => some ((st.base.mask 0).shape, (st.base.mask 1).shape)
+    | .error _ => none) = some ([2, 3], [3, 2]) := by decide
+/-- before the turn both held mesh object 0; a sum and a slice: the sum shares, the slice does not -/
+example : (match (SessM.init [exEnv 0, exEnv 1]).run [.build (.binF (.leaf 1) (.leaf 0)), .build (.map (.slice 1 0 2) (.leaf 2))] with
+    | .ok st => some (st.meshObj 2, st.meshObj 3, st.meshNOf 3)
+    | .error _ => none) = some (1, 2, [2, 2]) := by decide
+/-- contrast — the behaviour before the fix (`rotIOld` turns the shared mesh object): `f`'s validity
+keeps 2 × 3 cells on a mesh that now says 3 × 2 -/
+example : (match (SessM.init [exEnv 0]).step (.build (.un (.leaf 0))) with
+    | .ok st => (match st.rotIOld 1 0 1 1 with
+      | .ok st' => some (st'.meshNOf 0, (st'.base.mask 0).shape)
+      | .error _ => none)
+    | .error _ => none) = some ([3, 2], [2, 3]) := by decide
+
+/-- **Shared mesh, own validity.**  A field built by an operation that keeps the cells (`meshOf p =
+some k`, the expression is not just a variable behind unary plus) at any point of any history holds
+the SAME mesh object as variable `k` — and a validity buffer that no existing variable reads: its
+address is new, so writing through it (`session_write_isolated`) or re-assigning it reaches nobody
+else, while an in-place quarter turn of either field gives that field a mesh of its own
+(`session_rotate_unshares_mesh`). -/
+theorem session_result_shares_mesh_not_validity (leaves : List Mask) (h : List Stmt) (st st' : SessM)
+    (hr : (SessM.init leaves).run h = .ok st) (p : Prog) (k : Nat) (hs : st.step (.build p) = .ok st')
+    (hm : meshOf p = some k) (ha : aliasOf p = none) :
+    st'.meshObj st.base.vars.length = st'.meshObj k ∧
+    ∀ j, j < st.base.vars.length → st'.base.addrOf st.base.vars.length ≠ st'.base.addrOf j := by
+  have hI := SessM.run_inv h _ st (SessM.init_inv leaves) hr
+  obtain ⟨m1, m2, _⟩ := SessM.build_mesh st st' hI p hs
+  have hb := SessM.step_base st st' _ hs
+  obtain ⟨m, hm', hl, _⟩ := Sess.step_objs st.base st'.base (.build p) hb
+  have hk : k < st.base.vars.length := meshOf_lt _ p k hm hl
+  refine ⟨by rw [m2 k hm, m1 k hk], fun j hj => ?_⟩
+  have hI' := SessM.step_inv st st' _ hI hs
+  obtain ⟨_, _, e2, e3, e4, _⟩ := Sess.build_effect st.base st'.base hI.base p hb
+  have hnew : st'.base.objOf st.base.vars.length = st.base.objs.length := (e4 ha).2.1
+  have hold : st'.base.objOf j = st.base.objOf j := (e2 j hj).2
+  intro he
+  have := hI'.base.addr_inj _ _ (hI'.base.vars_lt _ (by omega)) (hI'.base.vars_lt j (by omega)) he
+  have hlt := hI.base.vars_lt j hj
+  unfold Sess.objOf at hnew hold this
+  rw [hnew, hold] at this
+  omega
+
+/-- **A statement is accepted iff it is well formed** in the state it meets: a build when the
+variables it names exist and the expression is well formed on the masks they have NOW
+(`program_accepted_iff`), an assignment when the argument fits the target's cells
+(`setter_accepted_iff`), an in-place quarter turn when it names two different axes of the target,
+an element write when the target exists — for every state, hence at every point of every history. -/
+theorem session_step_accepted_iff (st : Sess) (s : Stmt) : (∃ st', st.step s = .ok st') ↔ stmtOk st s = true :=
+  Sess.step_ok_iff st s
+
+example : stmtOk (Sess.init [exEnv 0, exEnv 1]) (.build (.binF (.leaf 0) (.map (.rot 0 1 1) (.leaf 1)))) = false ∧
+    stmtOk (Sess.init [exEnv 0, exEnv 1]) (.build (.binF (.leaf 0) (.map (.rot 0 1 2) (.leaf 1)))) = true ∧
+    stmtOk (Sess.init [exEnv 0]) (.assign 0 (.arr (NDA.const [3, 1] 1))) = true ∧
+    stmtOk (Sess.init [exEnv 0]) (.assign 0 (.arr (NDA.const [3, 2] 1))) = false ∧
+    stmtOk (Sess.init [exEnv 0]) (.rotI 0 1 1 1) = false ∧ stmtOk (Sess.init [exEnv 0]) (.poke 1 0 true) = false := by decide
+
+/-! ## The setter as one total function: refusal iff malformed -/
+
+/-- **Accepted iff well formed (every argument kind of the property's list).**  `None`, a number,
+an array (shape `n`, or a trailing axis 1 that broadcasts), a callable, `'norm'`, a Boolean field on
+a containing region: the setter accepts the argument exactly when `MSpec.ok` holds — anything else
+(other shapes, other strings, other objects, a field that does not contain the region) is refused,
+and nothing is stored. -/
+theorem setter_accepted_iff (n : List Nat) (s : MSpec) : (∃ m, setMask n s = .ok m) ↔ s.ok n = true :=
+  setMask_ok_iff n s
+
+/-- the same at field level, for every field: `field.valid = spec` is accepted iff the argument is
+well formed for the field's mesh -/
+theorem setValid_accepted_iff (f : Fld) (s : VSpec) :
+    (∃ g, setValid f s = .ok g) ↔ (toMSpec f s).ok f.mesh.n = true := by
+  rw [← setMask_ok_iff]
+  unfold setValid
+  constructor
+  · rintro ⟨g, hg⟩
+    split at hg
+    · cases hg
+    · rename_i m hm; exact ⟨m, hm⟩
+  · rintro ⟨m, hm⟩
+    rw [hm]; exact ⟨_, rfl⟩
+
+example : (toMSpec exFld (.arr (NDA.const [2, 1, 1] 1))).ok exFld.mesh.n = true ∧
+    (toMSpec exFld (.arr (NDA.const [1, 2] 1))).ok exFld.mesh.n = false ∧ (toMSpec exFld .bad).ok exFld.mesh.n = false := by
+  decide
+
+/-- **A dictionary over the subregions, cell by cell.**  `valid = {name: value, …, "default": …}` (the
+`dict` branch of `_as_array`, which paints the subregions in REVERSED order): if accepted, the mask
+has the mesh shape and every cell holds what the FIRST subregion (in the order of the mesh) that
+is a key and contains the cell assigns to it — read inside that subregion's own block — and the
+default where no such subregion exists. -/
+theorem dict_setter_first_wins (n : List Nat) (d : DictSpec) (m : Mask) (h : setMaskDict n d = .ok m) :
+    m.shape = n ∧ ∀ j, inRange n j = true → m.get j = dictCell d.dflt d.subs j :=
+  setMaskDict_spec n d m h
+
+/-- **The setter, every argument kind, dictionaries included: accepted iff well formed.**  A
+dictionary is well formed when every value is acceptable on the block of its own subregion and
+either every cell lies in a subregion that is a key or a default is given. -/
+theorem setter_any_accepted_iff (n : List Nat) (a : SetArg) : (∃ m, setMaskAny n a = .ok m) ↔ a.ok n = true :=
+  setMaskAny_ok_iff n a
+
+/-- overlapping subregions, the first wins; a callable default on the uncovered cells -/
+example : (match setMaskDict [4, 2]
+      { dflt := .func fun j => j.getD 1 0 == 1,
+        subs := [⟨[1, 0], [3, 1], some (.const 1)⟩, ⟨[2, 0], [4, 2], some (.const 0)⟩] } with
+    | .ok m => some m.toList
+    | .error _ => none) = some [false, true, true, true, true, false, false, false] := by decide
+example : DictSpec.ok [4, 2] { dflt := .none, subs := [⟨[1, 0], [3, 1], some (.const 1)⟩] } = false ∧
+    DictSpec.ok [4, 2] { dflt := .none, subs := [⟨[0, 0], [4, 2], none⟩, ⟨[0, 0], [4, 2], some (.cells fun _ => true)⟩] } = true ∧
+    DictSpec.ok [4, 2] { dflt := .const 1, subs := [⟨[1, 0], [3, 1], some (.arr (NDA.const [2, 2] 1))⟩] } = false := by
+  decide
+
+/-- **The dictionary at field level** (`mesh[name]` and `region2slices` are the C07 model's): an
+accepted assignment changes nothing but the mask, which has the mesh shape. -/
+theorem setValidDict_keeps_data (f g : Fld) (dflt : DDef) (val : List (String × DVal))
+    (h : setValidDict f dflt val = .ok g) :
+    g.data = f.data ∧ g.mesh = f.mesh ∧ g.nvdim = f.nvdim ∧ g.vdims = f.vdims ∧ g.vmap = f.vmap ∧ g.unit = f.unit ∧
+      g.valid.shape = f.mesh.n := by
+  unfold setValidDict at h
+  split at h
+  · cases h
+  · split at h
+    · cases h
+    · rename_i es _ m hm
+      simp only [Except.ok.injEq] at h; subst h
+      exact ⟨rfl, rfl, rfl, rfl, rfl, rfl, (setMaskDict_spec _ _ _ hm).1⟩
+
+example : validOf (setValidDict exF (.func fun p => decide (p.getD 1 0 < 1)) [("b", .const 0), ("a", .const 1)])
+    = some ([4, 2], [true, false, true, false, true, false, false, false]) := by decide +kernel
+example : isOk (setValidDict exF .none [("a", .const 1)]) = false ∧ isOk (setValidDict exF (.const 0) [("a", .bad)]) = false := by
+  decide +kernel
+
+/-! ## The object-level link: the field-level models hand exactly these arrays to the constructor -/
+
+/-- a mapping operation applied to one input field, in terms of the evaluator: the stored mask is
+the copy of `op.apply` of the operand's mask -/
+theorem eval_map_leaf (env : Nat → Mask) (op : MapOp) (k : Nat) (hok : op.ok (env k).shape = true) :
+    eval env (.map op (.leaf k)) = .ok (own (op.apply (env k) false)) := by
+  simp only [eval, hok, if_true]
+
+/-- **C03 (field algebra), every expression.**  Take any expression of the C03 model — operators in
+forward and reflected form, NumPy ufuncs, `dot`, `cross`, `angle`, `<<`, unary operations, numbers /
+arrays / NumPy objects as operands, in any nesting — over fields whose validity has their mesh's
+shape.  If the C03 model (the operator paths of `field.py`) evaluates it to a field `g`, then the
+C08 evaluator accepts the translated validity program `progOf e` on the fields' masks, and its
+mask IS `g.valid`: same shape, same entry in every cell; and `g.valid` has the shape of `g`'s mesh. -/
+theorem link_c03_expression (env : C03.Env) (henv : ∀ (k : Nat) (f : C03.CF), env.fields[k]? = some f → f.valid.shape = f.mesh.n)
+    (e : C03.Expr) (g : C03.CF) (h : C03.evalF env e = .ok (.fld g)) :
+    g.valid.shape = g.mesh.n ∧ ∃ m, eval (maskEnv env) (progOf e) = .ok m ∧ m.shape = g.valid.shape ∧
+      ∀ j, inRange m.shape j = true → m.get j = g.valid.get j := by
+  obtain ⟨_, hinv, m, hm, hme⟩ := expr_link env henv e _ h
+  exact ⟨hinv, m, hm, hme.1, hme.2⟩
+
+/-- **C03, operation by operation (what is STORED).**  The constructor of the C03 model stores `own V`
+— the `own` of this model — for the mask `V` it is handed: the operand's mask for unary operations,
+`norm`, component access and unary ufuncs; for every operator / `dot` / `cross` / `<<` between two
+fields the cell-wise AND of both, on the left operand's mesh, and both operands have the same
+number of cells. -/
+theorem link_c03_operations (self : C03.CF) (hs : self.valid.shape = self.mesh.n) :
+    (∀ fn pw o g, C03.applyOperator fn pw self (.fld o) = .ok g →
+      g.valid = own (NDA.zipWith and self.valid o.valid) ∧ g.mesh = self.mesh ∧ self.mesh.n = o.mesh.n) ∧
+    (∀ fn pw od g, C03.applyOperator fn pw self (.raw od) = .ok g → g.valid = own self.valid ∧ g.mesh = self.mesh) ∧
+    (∀ fn rk ku g, C03.mapField fn rk ku self = .ok g → g.valid = own self.valid ∧ g.mesh = self.mesh) ∧
+    (∀ o g, C03.dotOp self (.fld o) = .ok g → g.valid = own (NDA.zipWith and self.valid o.valid)) ∧
+    (∀ o g, C03.crossOp self (.fld o) = .ok g → g.valid = own (NDA.zipWith and self.valid o.valid)) ∧
+    (∀ o g, C03.shlFF self o = .ok g → g.valid = own (NDA.zipWith and self.valid o.valid)) ∧
+    (∀ sq g, C03.normOp sq self = .ok g → g.valid = own self.valid) ∧
+    (∀ l g, C03.getComp self l = .ok g → g.valid = own self.valid) ∧
+    (∀ fn rk g, C03.ufunc1 fn rk self = .ok g → g.valid = own self.valid) :=
+  ⟨fun _ _ _ _ h => let r := c03_applyOperator_fld h hs; ⟨r.hvalid, r.hmesh, r.hsame⟩,
+   fun _ _ _ _ h => let r := c03_applyOperator_raw h hs; ⟨r.hvalid, r.hmesh⟩,
+   fun _ _ _ _ h => let r := c03_mapField h hs; ⟨r.hvalid, r.hmesh⟩,
+   fun _ _ h => (c03_dotOp_fld h hs).hvalid, fun _ _ h => (c03_crossOp_fld h hs).hvalid,
+   fun _ _ h => (c03_shlFF h hs).hvalid, fun _ _ h => (c03_normOp h hs).hvalid,
+   fun _ _ h => (c03_getComp h hs).hvalid, fun _ _ _ h => (c03_ufunc1 h hs).hvalid⟩
+
+/-- `2.5 - (f0 * f1)` and `np.float64(2) * f0 << f1`-style nestings evaluate in the C03 model; the masks differ -/
+example : (match C03.evalF exC03 (.bin .sub (.opd (.num ⟨5 / 2, 0⟩ .float false)) (.bin .mul (.leaf 0) (.leaf 1))) with
+    | .ok (.fld g) => some g.valid.toList
+    | _ => none) = some [true, false, false, false, true, false, false, false] := by decide +kernel
+example : progOf (.bin .sub (.opd (.num ⟨5 / 2, 0⟩ .float false)) (.bin .mul (.leaf 0) (.leaf 1)))
+    = rsubProg (.binF (.leaf 0) (.leaf 1)) := rfl
+example : ∀ (k : Nat) (f : C03.CF), exC03.fields[k]? = some f → f.valid.shape = f.mesh.n := by
+  intro k f h
+  match k with
+  | 0 => simp only [exC03, List.getElem?_cons_zero, Option.some.injEq] at h; subst h; rfl
+  | 1 => simp only [exC03, List.getElem?_cons_succ, List.getElem?_cons_zero, Option.some.injEq] at h; subst h; rfl
+  | k + 2 => simp [exC03] at h
+
+/-- **C05 (`grad`, `div`, `curl`, `laplace`; `diff` underneath).**  Whenever the C05 model returns a
+field, its validity array has the operand's shape and the operand's entry at every index — and that is
+what the C08 evaluator computes for the composition `field.py` builds (`gradProg` … `laplaceProg`
+with the mesh's number of directions and the field's number of components) on the operand's mask. -/
+theorem link_c05_derivatives (f g : Fld) :
+    (C05.grad f = .ok g → (g.valid.shape = f.valid.shape ∧ ∀ j, g.valid.get j = f.valid.get j) ∧
+      ∃ m, eval (fun _ => f.valid) (gradProg f.mesh.region.dims.length (.leaf 0)) = .ok m ∧ m.shape = g.valid.shape ∧
+        ∀ j, inRange m.shape j = true → m.get j = g.valid.get j) ∧
+    (C05.div f = .ok g → (g.valid.shape = f.valid.shape ∧ ∀ j, g.valid.get j = f.valid.get j) ∧
+      ∃ vs, f.vdims = some vs ∧
+      ∃ m, eval (fun _ => f.valid) (divProg vs.length (.leaf 0)) = .ok m ∧ m.shape = g.valid.shape ∧
+        ∀ j, inRange m.shape j = true → m.get j = g.valid.get j) ∧
+    (C05.curl f = .ok g → (g.valid.shape = f.valid.shape ∧ ∀ j, g.valid.get j = f.valid.get j) ∧
+      ∃ m, eval (fun _ => f.valid) (curlProg (.leaf 0)) = .ok m ∧ m.shape = g.valid.shape ∧
+        ∀ j, inRange m.shape j = true → m.get j = g.valid.get j) ∧
+    (C05.laplace f = .ok g → (g.valid.shape = f.valid.shape ∧ ∀ j, g.valid.get j = f.valid.get j) ∧
+      ∃ nv, 0 < nv ∧
+      ∃ m, eval (fun _ => f.valid) (laplaceProg f.mesh.region.dims.length nv (.leaf 0)) = .ok m ∧ m.shape = g.valid.shape ∧
+        ∀ j, inRange m.shape j = true → m.get j = g.valid.get j) := by
+  -- the evaluator side: a compound program on one leaf returns the leaf's mask
+  have side : ∀ (P : Prog), wf (fun _ => f.valid) P = wf (fun _ => f.valid) (.leaf 0) →
+      (∀ m, eval (fun _ => f.valid) P = .ok m → ∃ m0, eval (fun _ => f.valid) (.leaf 0) = .ok m0 ∧ m.shape = m0.shape ∧
+        ∀ j, inRange m0.shape j = true → m.get j = m0.get j) →
+      g.valid.shape = f.valid.shape → (∀ j, g.valid.get j = f.valid.get j) →
+      ∃ m, eval (fun _ => f.valid) P = .ok m ∧ m.shape = g.valid.shape ∧ ∀ j, inRange m.shape j = true → m.get j = g.valid.get j := by
+    intro P hw hev hs hg
+    obtain ⟨m, hm⟩ := (eval_ok_iff _ P).mpr (by rw [hw]; rfl)
+    obtain ⟨m0, hm0, h1, h2⟩ := hev m hm
+    simp only [eval, Except.ok.injEq] at hm0; subst hm0
+    exact ⟨m, hm, by rw [h1, hs], fun j hj => by rw [h2 j (by rw [← h1]; exact hj), hg j]⟩
+  refine ⟨fun h => ?_, fun h => ?_, fun h => ?_, fun h => ?_⟩
+  · obtain ⟨⟨hs, hg⟩, hpos⟩ := c05_grad_valid f g h
+    obtain ⟨hw, hev⟩ := valid_grad (fun _ => f.valid) _ hpos (.leaf 0)
+    exact ⟨⟨hs, hg⟩, side _ hw hev hs hg⟩
+  · obtain ⟨⟨hs, hg⟩, vs, hvs, hpos⟩ := c05_div_valid f g h
+    obtain ⟨hw, hev⟩ := valid_div (fun _ => f.valid) _ hpos (.leaf 0)
+    exact ⟨⟨hs, hg⟩, vs, hvs, side _ hw hev hs hg⟩
+  · obtain ⟨hs, hg⟩ := c05_curl_valid f g h
+    obtain ⟨hw, hev⟩ := valid_curl (fun _ => f.valid) (.leaf 0)
+    exact ⟨⟨hs, hg⟩, side _ hw hev hs hg⟩
+  · obtain ⟨⟨hs, hg⟩, hpos, _⟩ := c05_laplace_valid f g h
+    obtain ⟨hw, hev⟩ := valid_laplace (fun _ => f.valid) _ 1 hpos (by omega) (.leaf 0)
+    exact ⟨⟨hs, hg⟩, 1, by omega, side _ hw hev hs hg⟩
+
+example : validOf (C05.grad exF) = some ([4, 2], [true, true, false, false, true, true, false, false]) ∧
+    validOf (C05.laplace exF) = validOf (C05.grad exF) := by decide +kernel
+example : validOf (C05.div exV) = some ([4, 2], [true, true, false, true, true, true, true, true]) := by decide +kernel
+
+/-- **C04 / C05 `diff`.**  The derivative of the C04 model (`Field.diff`, any direction, order 1 or 2,
+`restrict2valid` on or off — the flag only decides which cells the STENCIL reads) and `C05.diffDim`
+return exactly the operand's validity array, on the operand's mesh. -/
+theorem link_c04_diff (f g : Fld) :
+    (∀ ax o r, C04.diff f ax o r = .ok g → g.valid = f.valid ∧ g.mesh = f.mesh) ∧
+    (∀ d o, C05.diffDim f d o = .ok g → g.valid = f.valid) := by
+  refine ⟨fun ax o r h => ?_, fun d o h => c05_diffDim_valid h⟩
+  unfold C04.diff at h
+  split at h
+  · cases h
+  · split at h
+    · cases h
+    · simp only [Except.ok.injEq] at h; subst h; exact ⟨rfl, rfl⟩
+
+example : validOf (C04.diff exF 0 1 false) = some ([4, 2], exF.valid.toList) ∧
+    validOf (C04.diff exF 1 2 true) = some ([4, 2], exF.valid.toList) ∧ isOk (C04.diff exF 2 1 true) = false := by
+  decide +kernel
+
+/-- **C07 `sel`.**  A plane or range selection of the C07 model hands to the constructor a value
+array and a validity array that are ONE mapping operation (`take` / `slice` at the index the point was
+located in) applied to the operand's value array and validity array. -/
+theorem link_c07_sel (f g : Fld) (dim : String) (arg : C07.SelArg) (h : C07.selFld f dim arg = .ok (.field g))
+    (hv : f.valid.shape.length = f.mesh.region.dims.length) (hd : f.data.shape.length = f.mesh.region.dims.length) :
+    ∃ op : MapOp,
+      g.valid.shape = (op.apply f.valid false).shape ∧ g.data.shape = (op.apply f.data []).shape ∧
+      ∀ j, (inRange g.valid.shape j = true → g.valid.get j = (op.apply f.valid false).get j) ∧
+           (inRange g.data.shape j = true → g.data.get j = (op.apply f.data []).get j) :=
+  selFld_link f g dim arg h hv hd
+
+/-- **C07 `field[region]` / `field["name"]`.**  The block of cells `crop lo (lo + n')` with `n'` the cells
+of the sub-mesh, for values and validity alike. -/
+theorem link_c07_getitem (f g : Fld) (item : C07.Item) (h : C07.getItem f item = .ok g) :
+    ∃ lo : List Nat,
+      g.valid.shape = ((MapOp.crop lo (tab f.valid.shape.length fun b => lo.getD b 0 + g.mesh.n.getD b 0)).apply f.valid false).shape ∧
+      g.data.shape = ((MapOp.crop lo (tab f.data.shape.length fun b => lo.getD b 0 + g.mesh.n.getD b 0)).apply f.data []).shape ∧
+      ∀ j, g.valid.get j = ((MapOp.crop lo (tab f.valid.shape.length fun b => lo.getD b 0 + g.mesh.n.getD b 0)).apply f.valid false).get j ∧
+           g.data.get j = ((MapOp.crop lo (tab f.data.shape.length fun b => lo.getD b 0 + g.mesh.n.getD b 0)).apply f.data []).get j :=
+  getItem_link f g item h
+
+/-- **C07 `pad`.**  `np.pad` as the C07 model has it (index arithmetic in ℤ, all five modes) IS the
+mapping operation `pad` of this model, with one width pair per axis, for values (fill: the zero
+vector) and validity (fill: `False`) alike. -/
+theorem link_c07_pad (f g : Fld) (pw : List C07.PadW) (mode : C07.PadMode) (h : C07.padFld f pw mode = .ok g)
+    (hs : f.data.shape = f.valid.shape) (hpos : ∀ b, b < f.valid.shape.length → 0 < f.valid.shape.getD b 0) :
+    ∃ w : List (Nat × Nat), w.length = f.valid.shape.length ∧
+      g.valid.shape = ((MapOp.pad (padModeOf mode) w).apply f.valid false).shape ∧
+      g.data.shape = ((MapOp.pad (padModeOf mode) w).apply f.data (List.replicate f.nvdim 0)).shape ∧
+      ∀ j, g.valid.get j = ((MapOp.pad (padModeOf mode) w).apply f.valid false).get j ∧
+           g.data.get j = ((MapOp.pad (padModeOf mode) w).apply f.data (List.replicate f.nvdim 0)).get j :=
+  padFld_link f g pw mode h hs hpos
+
+/-- **C07 `resample`.**  The coordinate lookup of the C07 model (`mesh.cells`, nearest centre, ties to
+the larger index) on the REAL cell-centre coordinates is the mapping operation `resample` — the
+nearest-cell map on the unit interval — for values and validity alike, on every mesh with at least
+one cell per axis and positive edge lengths. -/
+theorem link_c07_resample (f g : Fld) (n : List Int) (h : C07.resample f n = .ok g)
+    (hv : f.valid.shape = f.mesh.n) (hd : f.data.shape = f.mesh.n) (hl : f.mesh.n.length = f.mesh.ndim)
+    (hpos : ∀ a, a < f.mesh.ndim → 0 < f.mesh.nAt a) (hE : ∀ a, a < f.mesh.ndim → 0 < f.mesh.region.edge a) :
+    g.mesh.n = n.map Int.toNat ∧
+    g.valid.shape = ((MapOp.resample g.mesh.n).apply f.valid false).shape ∧
+    g.data.shape = ((MapOp.resample g.mesh.n).apply f.data []).shape ∧
+    ∀ j, inRange g.mesh.n j = true →
+      g.valid.get j = ((MapOp.resample g.mesh.n).apply f.valid false).get j ∧
+      g.data.get j = ((MapOp.resample g.mesh.n).apply f.data []).get j :=
+  resample_link f g n h hv hd hl hpos hE
+
+/-- **C12 `rotate90`, copy and in place.**  In the shared rotation model the validity of the result
+is literally the mapping operation `rot` (`np.rot90`) applied to the operand's validity; the values
+are the same `rot90` of the value array, followed by the turn of the two in-plane components. -/
+theorem link_c12_rotate90 (f r g : Fld) (a1 a2 : String) (k : Int) (ref : Option (List Rat)) (inplace : Bool)
+    (h : T.rotate90F f a1 a2 k ref inplace = .ok (r, g)) :
+    ∃ i1 i2 : Nat, f.mesh.region.dim2index a1 = .ok i1 ∧ f.mesh.region.dim2index a2 = .ok i2 ∧
+      g.valid = (MapOp.rot i1 i2 k).apply f.valid false ∧
+      (∃ turn : List Rat → List Rat, g.data = ((MapOp.rot i1 i2 k).apply f.data []).map turn) ∧
+      (inplace = true → r = g) ∧ (inplace = false → r = f) :=
+  rotate90F_link f r g a1 a2 k ref inplace h
+
+example : isField (C07.selFld exF "x" (.point (5 / 2))) = true ∧ isField (C07.selFld exF "y" (.range (1 / 4) (7 / 4))) = true ∧
+    isOk (C07.getItem exF (.name "a")) = true ∧ isOk (C07.padFld exF [⟨"x", 1, 2⟩] .reflect) = true ∧
+    isOk (C07.resample exF [2, 3]) = true ∧ isOk (T.rotate90F exF "x" "y" 1 none true) = true := by decide +kernel
+example : validOf (C07.padFld exF [⟨"x", 1, 2⟩] .reflect)
+    = some ([7, 2], [false, false, true, true, false, false, true, true, false, false, true, true, false, false]) := by
+  decide +kernel
+example : exF.valid.shape = exF.mesh.n ∧ exF.data.shape = exF.mesh.n ∧ exF.mesh.n.length = exF.mesh.ndim ∧
+    (∀ a, a < exF.mesh.ndim → 0 < exF.mesh.nAt a) := by
+  refine ⟨rfl, rfl, rfl, fun a ha => ?_⟩
+  have : a = 0 ∨ a = 1 := by have : exF.mesh.ndim = 2 := rfl; omega
+  rcases this with rfl | rfl <;> decide
+
+/-! ## Results on a new cell set, tied to the C06 and C11 models -/
+
+/-- **C06 `mean(direction)` / `integrate(direction)` / cumulative integral.**  Every field these
+operations of the C06 model return is valid in every cell of its own mesh, whatever the operand's
+validity was — the array the C08 evaluator stores for a `fresh` node (a copy of all-`True` on the
+new shape). -/
+theorem link_c06_fresh (f g : Fld) :
+    (∀ dir cum, C06.integrate f dir cum = .ok (.field g) → g.valid = NDA.const g.mesh.n true) ∧
+    (∀ dir, C06.mean f dir = .ok (.field g) → g.valid = NDA.const g.mesh.n true) ∧
+    ∀ (env : Nat → Mask) (k : FreshOp) (p : Prog) (m0 : Mask), eval env p = .ok m0 → k.ok m0.shape = true →
+      eval env (.fresh k p) = .ok (own (NDA.const (k.shape m0.shape) true)) :=
+  ⟨fun dir cum h => c06_integrate_valid f g dir cum h, fun dir h => c06_mean_valid f g dir h,
+   fun env k p m0 h0 hok => eval_fresh_eq env k p m0 h0 hok⟩
+
+/-- **C11: the k-mesh.**  The meshes the FFT family of the C11 model builds have exactly the cells the
+`fresh` nodes name: `mesh.fftn()` the same counts (`spectrum`), `mesh.fftn(rfft=True)` half of the
+last axis plus one (`rfft`); `mesh.ifftn(rfft=True, shape)` is accepted only for the shapes `irfft`
+accepts, and then has the last count the shape names — or `(n_last − 1)·2` without a shape. -/
+theorem link_c11_kmesh (m k : Mesh) (hl : m.n.length = m.ndim) :
+    (∀ rfft, C11.meshFftn m rfft = .ok k → k.n = (if rfft then FreshOp.rfft else FreshOp.spectrum).shape m.n) ∧
+    (∀ shape, C11.meshIfftn m true shape = .ok k → 0 < m.ndim →
+      (FreshOp.irfft (shape.map fun s => s.getD (m.ndim - 1) 0)).ok m.n = true ∧
+      k.n = (FreshOp.irfft (shape.map fun s => s.getD (m.ndim - 1) 0)).shape m.n) :=
+  ⟨fun rfft h => c11_meshFftn_n m k rfft h hl, fun shape h hnd => c11_meshIfftn_n m k shape h hl hnd⟩
+
+example : run (.fresh (.irfft none) (.fresh .rfft (.leaf 0))) = some ([2, 2], [true, true, true, true]) ∧
+    run (.fresh (.irfft (some 3)) (.fresh .rfft (.leaf 0))) = some ([2, 3], [true, true, true, true, true, true]) ∧
+    run (.fresh (.irfft (some 4)) (.fresh .rfft (.leaf 0))) = none ∧
+    run (.fresh (.irfft (some 5)) (.leaf 0)) = some ([2, 5], List.replicate 10 true) := by decide
+example : (match C11.meshFftn exMesh true with
+    | .ok k => some k.n
+    | .error _ => none) = some [4, 2] ∧ (match C11.meshIfftn exMesh true (some [4, 3]) with
+    | .ok k => some k.n
+    | .error _ => none) = some [4, 3] := by decide +kernel
+
+/-! ## Norm, orientation, zero vectors (C15) -/
+
+/-- **Setting the norm leaves validity alone — over whole histories.**  Any history of
+`field.norm = …` (number, array, callable, field, `None`) and `field.update_field_values(…)` of the C15
+model on a field with invalid cells, zero vectors included: the validity array and the mesh are
+exactly what they were.  (Only `field.valid = …` changes validity.) -/
+theorem norm_history_keeps_validity (sqrt : Rat → Rat) (atol' : Rat) (steps : List C15.Step) (f g : Fld)
+    (h : C15.run sqrt atol' f steps = .ok g) (hs : steps.all notSetValid = true) :
+    g.valid = f.valid ∧ g.mesh = f.mesh :=
+  c15_run_valid sqrt atol' steps f g h hs
+
+/-- `Field.norm` and `Field.orientation` of the C15 model return the operand's validity, cell by
+cell, on the operand's mesh shape — also in the cells whose vector is zero (which `orientation` maps
+to the zero vector): the values never decide the validity. -/
+theorem norm_orientation_keep_validity (sqrt : Rat → Rat) (atol' : Rat) (f : Fld) (j : List Nat) :
+    (C15.norm sqrt f).valid.get j = f.valid.get j ∧ (C15.orientation sqrt atol' f).valid.get j = f.valid.get j ∧
+    (C15.norm sqrt f).valid.shape = f.mesh.n ∧ (C15.orientation sqrt atol' f).valid.shape = f.mesh.n :=
+  ⟨rfl, rfl, rfl, rfl⟩
+
+/-- **`valid='norm'` in both models.**  The C15 model marks a cell valid when `~isclose(norm, 0)` with
+the norm computed through a square root; this model compares the squared length with `atol²`.  For
+every cell where `sqrt` is the non-negative root of the squared length (`C15.SqrtAt`) the two
+coincide — so after `field.norm = t` the cells `'norm'` marks are decided by the NEW values alone. -/
+theorem norm_mask_agrees_c15 (sqrt : Rat → Rat) (f g : Fld) (m : NDA Bool) (h : setValid f .norm = .ok g)
+    (hm : C15.validOf sqrt atol f .byNorm = .ok m) (j : List Nat) (hj : inRange f.mesh.n j = true)
+    (hs : C15.SqrtAt sqrt (C15.sqLen (f.data.get j))) : g.valid.get j = m.get j := by
+  simp only [C15.validOf, Except.ok.injEq] at hm; subst hm
+  show g.valid.get j = !C15.closeZero atol (C15.normCell sqrt (f.data.get j))
+  have hb : g.valid.get j = decide (atol * atol < sumSq (f.data.get j)) := by
+    rw [Bool.eq_iff_iff]; simpa using setter_norm f g h j hj
+  rw [hb, sumSq_eq_sqLen]
+  exact (closeZero_iff sqrt _ atol (le_of_lt atol_pos) hs).symm
+
+example : C15.SqrtAt (fun x => if x = 25 / 1000000000000000000 then 5 / 1000000000 else 0)
+    (C15.sqLen (exFld.data.get [0, 0])) := by
+  constructor
+  · show (0 : Rat) ≤ if C15.sqLen (exFld.data.get [0, 0]) = 25 / 1000000000000000000 then 5 / 1000000000 else 0
+    split <;> norm_num
+  · have : C15.sqLen (exFld.data.get [0, 0]) = 25 / 1000000000000000000 := by decide +kernel
+    simp only [this, if_true]; norm_num
+example : (match C15.run (fun x => x) (1 / 100000000) exF [.setNorm (some (.const 3)), .update (.scalar 0), .setNorm none] with
+    | .ok g => some g.valid.toList
+    | .error _ => none) = some exF.valid.toList := by decide +kernel
+
+/-! ## The nearest-cell map in closed form -/
+
+/-- **Closed form of the source cell of `resample`.**  On a uniform axis the nearest cell centre is the
+centre of the cell that CONTAINS the point, and a point on the border of two cells goes to the upper
+one: the source cell of target cell `j` when `n` cells are resampled to `n'` is
+`⌊(2j+1)·n / (2n')⌋` (capped at the last cell) — for all `n, n' ≥ 1` and all `j`, by induction over the
+search. -/
+theorem nearest_closed_form (n n' j : Nat) (hn : 0 < n) (hn' : 0 < n') :
+    nearest n n' j = min (n - 1) (((2 * j + 1) * n) / (2 * n')) :=
+  nearest_eq_fast n n' j hn hn'
+
+/-- **`resample` through the closed form.**  The array the driver computes for large cases
+(`resampleFast`, one integer division per cell and axis) is the mapping operation `resample` of the
+model, entry by entry, for every entry type, whenever the operation is applicable. -/
+theorem resample_fast_is_resample {α : Type} (x : NDA α) (n' : List Nat) (fill : α)
+    (hok : (MapOp.resample n').ok x.shape = true) :
+    (resampleFast x n').shape = ((MapOp.resample n').apply x fill).shape ∧
+    ∀ j, (resampleFast x n').get j = ((MapOp.resample n').apply x fill).get j :=
+  resampleFast_eq x n' fill hok
+
+example : (resampleFast (exEnv 0) [4, 2]).toList = ((MapOp.resample [4, 2]).apply (exEnv 0) false).toList ∧
+    nearestFast 2 3 1 = 1 ∧ nearestFast 4000 8192 8191 = 3999 ∧ nearestFast 6 3 1 = 3 := by decide +kernel
 
 end DFV.C08
